@@ -12,7 +12,7 @@ Does not decide: monotonicity of concrete expressions.
 from __future__ import annotations
 
 import ast
-from typing import List, Set, Tuple
+from typing import Dict, List, Set, Tuple
 
 from ..index import AnalysisError, Index, call_name, norm, walk_no_nested
 from ..report import Report
@@ -29,11 +29,80 @@ def _tuple_returns(f) -> List[Tuple[ast.Return, List[str]]]:
     return out
 
 
+def lc_roles(f) -> Dict[str, str]:
+    """Role names for the locals of a LinearChecker.walk_* method, recognised by use: the three components unpacked
+    from an argument triple, the verdict (first component of the returned triples), the two accumulated sets (second
+    and third component of the final return, or: what `|= <positive part>` / `|= <negative part>` first feed)."""
+    roles: Dict[str, str] = {}
+    fn = f.node
+    # triples unpacked from args[i] / from the loop over args
+    for a in walk_no_nested(fn):
+        tgt = val = None
+        if isinstance(a, ast.Assign) and isinstance(a.targets[0], ast.Tuple) and len(a.targets[0].elts) == 3:
+            tgt, val = a.targets[0], a.value
+        elif isinstance(a, ast.For):
+            t = a.target
+            if isinstance(t, ast.Tuple) and len(t.elts) == 2 and isinstance(t.elts[1], ast.Tuple):
+                t = t.elts[1]
+            if isinstance(t, ast.Tuple) and len(t.elts) == 3:
+                tgt, val = t, a.iter
+        if tgt is None or not all(isinstance(x, ast.Name) for x in tgt.elts):
+            continue
+        v = norm(val)
+        if v == "args[0]" and fn.name == "walk_div":
+            names = ("numerator_is_linear", "numerator_positive_fluents", "numerator_negative_fluents")
+        elif v == "args[1]" and fn.name == "walk_div":
+            names = ("denominator_is_linear", "denominator_positive_fluents", "denominator_negative_fluents")
+        elif "args" in v:
+            names = ("b", "spf", "snf")
+        else:
+            continue
+        for x, r in zip(tgt.elts, names):
+            roles.setdefault(x.id, r)
+    inv = {r: a for a, r in roles.items()}
+    # the verdict
+    for r in walk_no_nested(fn):
+        if isinstance(r, ast.Return) and isinstance(r.value, ast.Tuple) and len(r.value.elts) == 3 and isinstance(r.value.elts[0], ast.Name) and r.value.elts[0].id not in roles:
+            roles[r.value.elts[0].id] = "is_linear"
+            break
+    # the accumulators
+    if "spf" in inv:
+        for a in walk_no_nested(fn):
+            if isinstance(a, ast.AugAssign) and isinstance(a.op, ast.BitOr) and isinstance(a.target, ast.Name) and a.target.id not in roles:
+                if norm(a.value) == inv["spf"] and "positive_fluents" not in roles.values():
+                    roles[a.target.id] = "positive_fluents"
+                elif norm(a.value) == inv.get("snf") and "negative_fluents" not in roles.values():
+                    roles[a.target.id] = "negative_fluents"
+    else:
+        for a in walk_no_nested(fn):
+            tg = a.targets[0] if isinstance(a, ast.Assign) else (a.target if isinstance(a, ast.AnnAssign) else None)
+            if isinstance(tg, ast.Name) and tg.id not in roles and getattr(a, "value", None) is not None and isinstance(a.value, ast.BinOp) and isinstance(a.value.op, ast.BitOr):
+                ops = {norm(a.value.left), norm(a.value.right)}
+                if inv.get("numerator_positive_fluents") in ops:
+                    roles[tg.id] = "positive_fluents"
+                elif inv.get("numerator_negative_fluents") in ops:
+                    roles[tg.id] = "negative_fluents"
+    # the "a factor with fluents was seen" flag: `if not X: X = True`
+    for i in walk_no_nested(fn):
+        if isinstance(i, ast.If) and isinstance(i.test, ast.UnaryOp) and isinstance(i.test.op, ast.Not) and isinstance(i.test.operand, ast.Name):
+            x = i.test.operand.id
+            if any(isinstance(a, ast.Assign) and norm(a.targets[0]) == x and isinstance(a.value, ast.Constant) and a.value.value is True for a in i.body):
+                roles.setdefault(x, "arg_with_fluents_found")
+    return roles
+
+
+def _lc(idx: Index, name: str):
+    from ..roles import with_roles
+
+    f = idx.func(f"{LC}.{name}")
+    return with_roles(f, lc_roles(f))
+
+
 def run(idx: Index, rep: Report, tier: str) -> None:
     rep.explanation = __doc__.strip()
     rule1 = "C17.1 T17 sign-of-non-constant-operands"
     for name in ("walk_times", "walk_div"):
-        f = idx.func(f"{LC}.{name}")
+        f = _lc(idx, name)
         rep.note_function(f.qualname)
         rets = _tuple_returns(f)
         orders = {(e[1], e[2]) for _, e in rets if e[1] != e[2] and "set()" not in e[1]}
@@ -56,7 +125,7 @@ def run(idx: Index, rep: Report, tier: str) -> None:
         )
 
     rule2 = "C17.2 linearity-shape"
-    wt = idx.func(f"{LC}.walk_times")
+    wt = _lc(idx, "walk_times")
     cfg = cfg_of(wt)
     falses = [n for n in cfg.nodes if isinstance(n.ast, ast.Assign) and norm(n.ast.targets[0]) == "is_linear" and isinstance(n.ast.value, ast.Constant) and n.ast.value.value is False]
     ok = False
@@ -65,7 +134,7 @@ def run(idx: Index, rep: Report, tier: str) -> None:
         if any(("len(spf) > 0" in g or "len(snf) > 0" in g) and o for g, o in gs) and any("arg_with_fluents_found" in g for g, o in gs):
             ok = True
     rep.check(ok, rule2, "walk_times: a second fluent-dependent factor makes the product non-linear", wt.loc(falses[0].ast) if falses else wt.loc(), construct="is_linear = False under (fluents in this factor) and (a previous factor had fluents)", detail="" if ok else "a product of two fluent-dependent factors can be reported linear", function=wt.qualname)
-    wd = idx.func(f"{LC}.walk_div")
+    wd = _lc(idx, "walk_div")
     asg = [a for a in walk_no_nested(wd.node) if isinstance(a, ast.Assign) and norm(a.targets[0]) == "is_linear"]
     ok = False
     for a in asg:
@@ -74,7 +143,7 @@ def run(idx: Index, rep: Report, tier: str) -> None:
             ok = True
     rep.check(ok, rule2, "walk_div: a fluent-dependent divisor makes the quotient non-linear", wd.loc(asg[0]) if asg else wd.loc(), construct=norm(asg[0])[:150] if asg else "", detail="" if ok else "a quotient with fluents in the divisor can be reported linear", function=wd.qualname)
     for name in ("walk_times", "walk_div", "walk_minus"):
-        f = idx.func(f"{LC}.{name}")
+        f = _lc(idx, name)
         fc = cfg_of(f)
         ok = False
         for n in fc.nodes:
@@ -82,7 +151,7 @@ def run(idx: Index, rep: Report, tier: str) -> None:
                 if any(norm(t.ast) == "not is_linear" and o for t, o in guards_dominating(fc, n)):
                     ok = True
         rep.check(ok, rule2, f"{name}: a non-linear verdict carries no monotonicity claim", f.loc(), construct="if not is_linear: return (is_linear, set(), set())", function=f.qualname)
-    wm = idx.func(f"{LC}.walk_minus")
+    wm = _lc(idx, "walk_minus")
     rep.note_function(wm.qualname)
     # statements after `b, spf, snf = args[1]` swap
     body = list(wm.node.body)
@@ -94,7 +163,7 @@ def run(idx: Index, rep: Report, tier: str) -> None:
         before = [norm(s) for s in body[:idx1]]
         ok = ok and "positive_fluents |= spf" in before and "negative_fluents |= snf" in before
     rep.check(ok, rule2, "walk_minus: minuend keeps, subtrahend swaps the fluent sets", wm.loc(), construct="args[0]: pos|=spf, neg|=snf; args[1]: neg|=spf, pos|=snf", detail="" if ok else "the polarity of the subtrahend's fluents is not inverted (or the minuend's is)", function=wm.qualname)
-    wf = idx.func(f"{LC}.walk_fluent_exp")
+    wf = _lc(idx, "walk_fluent_exp")
     rets = _tuple_returns(wf)
     ok = bool(rets) and all(e[1] == "{expression}" and e[2] == "set()" for _, e in rets)
     rep.check(ok, rule2, "walk_fluent_exp: a fluent is non-decreasing in itself", wf.loc(), construct=str(rets[0][1]) if rets else "", function=wf.qualname)
